@@ -768,7 +768,9 @@ func (c *Client) Authenticate(username, password string) (User, error) {
 	c.mu.RUnlock()
 	if ok {
 		// verify the password using the cached salt and hash
-		if bytes.Equal(c.hashWithSalt(au.salt, password), au.hash) {
+		// The entry only counts if it was made against the hash the user has now: an
+		// authentication that raced with a password change may have stored it afterwards.
+		if au.bhash == userInfo.Hash && bytes.Equal(c.hashWithSalt(au.salt, password), au.hash) {
 			return userInfo, nil
 		}
 
